@@ -51,6 +51,8 @@ def wf(eng, p, h):
         "el_tables": FA([k], z3.Implies(el.dom[k], z3.And(w.dom[el.val[k]], em.dom[el.val[k]])), patterns=[el.dom[k], el.val[k]]),
         "next": nxt >= 0,
         "nm_exact": nm.dom == adj.dom,
+        # get_edges(metadata=True) enumerates the metadata table: it may hold entries for stored records only
+        "em_live": FA([i], z3.Implies(em.dom[i], live(h, i)), patterns=[em.dom[i]]),
         "inc_dom": FA([i, n], z3.Implies(z3.And(live(h, i), TH.tmem(nd(rv.val[i]), n)), adj.dom[n]),
                       patterns=[MP(rv.dom[i], TH.tmem(nd(rv.val[i]), n))]),
         "inc_once": FA([n, i], z3.Implies(adj.dom[n], adj.val[n][i] == z3.If(z3.And(live(h, i), TH.tmem(nd(rv.val[i]), n)), 1, 0)),
@@ -291,6 +293,17 @@ CONTRACTS = [
       ensures={"result": "all(count(result, n) == (1 if n in V(self) else 0) for n in Node)"}),
     C("get_edges", params={"metadata": "Bool"}, fixed={"metadata": False}, result="Bag[Key]", pure=True,
       ensures={"result": "all(count(result, k) == (1 if k in E(self) else 0) for k in Key)"}),
+    Contract(f"{CLS}.get_nodes@md", FILE, [CLS, "get_nodes"], self_cls=CLS, properties=["C04", "C19"],
+      params={"metadata": "Bool"}, fixed={"metadata": True}, result="Map[Int,Meta]", pure=True,
+      requires={"wf": "wf(self)"},
+      ensures={"dom": "all((n in result) == (n in V(self)) for n in Node)",
+               "val": "all(result[n] == NM(self, n) for n in V(self))"}),
+    # enumerates the metadata table and maps ids back to records: exactly the stored records (wf.em_live), each with its metadata
+    Contract(f"{CLS}.get_edges@md", FILE, [CLS, "get_edges"], self_cls=CLS, properties=["C04", "C19"],
+      params={"metadata": "Bool"}, fixed={"metadata": True}, result="Map[Key,Meta]", pure=True,
+      requires={"wf": "wf(self)"},
+      ensures={"dom": "all((k in result) == (k in E(self)) for k in Key)",
+               "val": "all(result[k] == M(self, k) for k in E(self))"}),
     C("get_incident_edges", params={"node": "Node", "order": "Opt[Int]", "size": "Opt[Int]"}, result="Bag[Key]", pure=True, requires={"wf": "wf(self)"},
       raises={"ValueError": "node not in V(self) or (order is not None and size is not None)"},
       ensures={"result": "all(count(result, k) == (1 if k in E(self) and node in fst(k) and sel(self, k, order, size, False) else 0) for k in Key)"},
